@@ -156,6 +156,10 @@ def build_module(rng, gated: set, idx: int, n_decls: int):
     gt = {}  # declaration path -> expected marker ids
     for j in range(n_decls):
         kind = rng.choice(["func", "func", "class", "class"])
+        if rng.random() < 0.15:
+            # a private function / class full of flagged features between the public ones: not emitted, no marker of it anywhere
+            psrc, _ = rand_function(rng, gated, f"_hidden_fn{idx}_{j}", "func")
+            lines.append(psrc + "\n\n" if rng.random() < 0.5 else f"class _Hidden{idx}x{j}(Base0, Base1):\n    pair: tuple[int, str]\n    bag = _untyped_source()\n\n    def go(self, a, *rest: set[int]): ...\n\n\n")
         if kind == "func":
             name = f"fn{idx}_{j}"
             src, marks = rand_function(rng, gated, name, "func")
@@ -183,6 +187,10 @@ def build_module(rng, gated: set, idx: int, n_decls: int):
             for a in range(rng.randint(0, 3)):
                 an = f"ca{j}_{a}"
                 choice = rng.choice(["typed", "typed", "untyped", "literal"])
+                if rng.random() < 0.3:
+                    # a private attribute with a flagged type (or none) in front of the public one: it is not emitted and
+                    # must not leave its markers to the next declaration
+                    body.append(rng.choice([f"_p{an}: tuple[int, str]\n", f"_p{an}: set[str] = set()\n", f"_p{an}: list[int, str]\n", f"_p{an} = _untyped_source()\n", f"_p{an}: dict[str, tuple[int, set[int]]]\n"]))
                 if choice == "typed":
                     tkey = rng.choice(list(TYPES))
                     anno, tm = TYPES[tkey]
@@ -202,6 +210,8 @@ def build_module(rng, gated: set, idx: int, n_decls: int):
                 for a in range(rng.randint(0, 2)):
                     an = f"ia{j}_{a}"
                     choice = rng.choice(["typed", "untyped"])
+                    if rng.random() < 0.3:
+                        ia.append(rng.choice([f"self._p{an}: tuple[int, int] = _untyped_source()", f"self._p{an}: set[str] = set()", f"self._p{an} = _untyped_source()", f"self._p{an}: list[int, str] = []"]))
                     if choice == "typed":
                         tkey = rng.choice(list(TYPES))
                         anno, tm = TYPES[tkey]
@@ -212,9 +222,15 @@ def build_module(rng, gated: set, idx: int, n_decls: int):
                         gt[f"{cname}/{an}"] = {"attr-untyped"}
                 body.append(f"\ndef __init__({', '.join(['self'] + parts)}) -> None:\n" + ("".join(f"    {x}\n" for x in ia) if ia else "    pass\n"))
             # methods / properties
+            if rng.random() < 0.3:
+                # private attributes as the LAST attributes of the class (the next declaration is a method, a nested class or nothing)
+                body.append(rng.choice([f"_last{j}: tuple[int, str]\n", f"_last{j}: set[int] = set()\n", f"_last{j} = _untyped_source()\n"]))
             for mth in range(rng.randint(0, 3)):
                 role = rng.choice(["inst", "inst", "static", "class", "prop"])
                 mn = f"me{j}_{mth}"
+                if rng.random() < 0.2:
+                    psrc, _ = rand_function(rng, gated, f"_pm{j}_{mth}", rng.choice(["inst", "static", "class"]))
+                    body.append("\n" + psrc)
                 src, marks = rand_function(rng, gated, mn, role)
                 body.append("\n" + src)
                 gt[f"{cname}/{mn}"] = marks
